@@ -17,7 +17,7 @@ Definition hwf (s : hll) : Prop := length (h_regs s) = N.to_nat (h_m s) /\ Foral
 Lemma wrap8_lt x : wrap8 x < 256.
 Proof. rewrite wrap8_spec; apply N.mod_lt; lia. Qed.
 
-Lemma new_wf m s : hll_new m = Ok s -> hwf s /\ h_m s = m /\ h_p s = N.log2 m.
+Lemma new_wf m al s : hll_new m al = Ok s -> hwf s /\ h_m s = m /\ h_p s = N.log2 m.
 Proof.
   unfold hll_new. destruct (m =? 0); [discriminate|]. destruct (negb (is_pow2 m)); [discriminate|].
   intros [= <-]; unfold hwf; cbn. rewrite repeat_length. repeat split; auto.
@@ -39,6 +39,12 @@ Proof.
   destruct (nth_error (h_regs s) (N.to_nat (fst (hic (h_p s) x)))); [|discriminate].
   intros [= <-]; unfold hwf; cbn. unfold setnth. rewrite upd_length. repeat split; auto.
   apply Forall_upd; auto. intros; apply wrap8_lt.
+Qed.
+
+Lemma update_alpha s x s' : hll_update hic s x = Ok s' -> h_alpha s' = h_alpha s.
+Proof.
+  unfold hll_update. destruct (nth_error (h_regs s) (N.to_nat (fst (hic (h_p s) x)))); [|discriminate].
+  now intros [= <-].
 Qed.
 
 (* Update never fails when the register index is inside the array *)
@@ -77,7 +83,7 @@ Proof.
   intros (_ & Hf). unfold hll_update.
   set (i := N.to_nat (fst (hic (h_p s) x))). set (c := snd (hic (h_p s) x)).
   destruct (nth_error (h_regs s) i) as [old|] eqn:E; [|discriminate].
-  intros [= <-]; cbn [h_p h_m h_regs]. fold i c.
+  intros [= <-]; cbn [h_p h_m h_regs h_alpha]. fold i c.
   unfold setnth. rewrite (nth_error_upd_same _ _ _ _ E).
   intros [= <-]. f_equal. rewrite upd_upd_same. apply upd_ext. intros _.
   assert (Ho : old < 256).
